@@ -535,7 +535,9 @@ impl Check for C15 {
             "render-truncate" => {
                 let d = docs::rendered(rng);
                 let mut cut = rng.below(d.text.len() + 1);
-                while !d.text.is_char_boundary(cut) {
+                // half of the cuts may fall inside a multi-byte character (the bytes door sees those)
+                let keep_anywhere = rng.coin();
+                while !keep_anywhere && !d.text.is_char_boundary(cut) {
                     cut -= 1;
                 }
                 d.text.as_bytes()[..cut].to_vec()
@@ -558,12 +560,22 @@ impl Check for C15 {
             // byte-slice entry point: the error must still be well-formed
             ctx.eval();
             ctx.set_input_bytes(&bytes);
-            match guarded(|| toml_edit::de::from_slice::<toml::Table>(&bytes).map_err(|e| (e.message().to_string(), e.to_string(), format!("{e:?}").len()))) {
+            match guarded(|| toml_edit::de::from_slice::<toml::Table>(&bytes).map_err(|e| (e.message().to_string(), e.to_string(), format!("{e:?}").len(), e.span()))) {
                 Err((loc, msg)) => ctx.violation(&format!("panic:{}", crate::short_loc(&loc)), format!("from_slice error handling panicked at {loc}: {msg}")),
-                Ok(Err((m, _, _))) => {
+                Ok(Err((m, _, _, span))) => {
                     ctx.count("errors/from_slice(invalid utf-8)");
                     if m.trim().is_empty() {
                         ctx.violation("empty-error-message", "from_slice on invalid UTF-8: empty message".into());
+                    }
+                    // there is no text to point into, only bytes: a span, if one is given, lies inside them
+                    match span {
+                        None => ctx.count("errors/from_slice(invalid utf-8)/no-span"),
+                        Some(sp) => {
+                            ctx.count("errors/from_slice(invalid utf-8)/with-span");
+                            if sp.start > sp.end || sp.end > bytes.len() {
+                                ctx.violation("error-span-out-of-bounds-or-off-boundary", format!("from_slice on invalid UTF-8: span {sp:?} for an input of {} bytes", bytes.len()));
+                            }
+                        }
                     }
                 }
                 Ok(Ok(_)) => ctx.violation("invalid-utf8-accepted", "from_slice accepted invalid UTF-8".into()),
